@@ -4,32 +4,32 @@ From Coq Require Import List String.
 Import ListNotations.
 Local Open Scope string_scope.
 
-(* key = file:function#ordinal ; expr = the ranged expression *)
-Definition map_range_sites : list (string * string) := [
-  ("logic/biases/anchoring/anchoring.go:matchScalingWithBounding#0", "scaling");
-  ("logic/biases/anchoring/ideal-reference-alternative-evaluator.go:extractCriteriaValues#0", "*best");
-  ("logic/biases/anchoring/ideal-reference-alternative-evaluator.go:prepareCriteriaWithCoefficients#0", "firstAlternative.Alternative.Criteria");
-  ("logic/biases/anchoring/inline-anchoring-applier.go:*InlineAnchoringApplier.ApplyAnchoring#0", "boundingsWithScales");
-  ("logic/biases/anchoring/inline-anchoring-applier.go:arithmeticAverage#0", "a.Coefficients");
-  ("logic/biases/anchoring/inline-anchoring-applier.go:arithmeticAverage#1", "newWeights");
-  ("logic/biases/criteria-mixing/criteria-mixing.go:*criteriaToMix.mix#0", "c1Values");
-  ("logic/limited-rationality/satisfaction-levels/satisfaction-levels-update.go:*SatisfactionLevelsUpdateListeners.Fetch#0", "sl.Listeners");
-  ("logic/preference-func/choquet/choquet-integral.go:prepareCriteriaInAscendingOrder#0", "alternative.Criteria");
-  ("logic/preference-func/choquet/choquet-integral_parsing.go:remapWeights#0", "*weights");
-  ("logic/preference-func/choquet/choquet-integral_parsing.go:prepareWeights#0", "*weights");
-  ("logic/preference-func/electreIII/electre_III-bias-listener.go:*ElectreIIIBiasLIstener.Merge#0", "*oldEleParams.Criteria");
-  ("logic/preference-func/electreIII/electre_III-bias-listener.go:*ElectreIIIBiasLIstener.Merge#1", "*newEleParams.Criteria");
-  ("logic/preference-func/electreIII/electre_III-bias-listener.go:*ElectreIIIBiasLIstener.RankCriteriaAscending#0", "*eleParams.Criteria");
-  ("logic/preference-func/owa/owa-bias-listener.go:*OwaBiasListener.Merge#0", "newParams.Weights");
-  ("logic/preference-func/owa/owa.go:sortAlternativeCriteriaWeights#0", "alternative.Criteria");
-  ("model/alternative.go:*AlternativeWithCriteria.WithCriterion#0", "a.Criteria");
-  ("model/bias-listener.go:PrepareCumulatedWeightsMap#0", "a.Criteria");
-  ("model/bias.go:ChooseBiases#0", "*available");
-  ("model/weights.go:*Weights.Merge#0", "*w");
-  ("model/weights.go:*Weights.Merge#1", "*other");
-  ("model/weights.go:*Weights.Copy#0", "*w");
-  ("model/weights.go:*Weights.AsKeyValue#0", "*w");
-  ("testUtils/test_utils.go:ValidateWeights#0", "expected")
+(* key = file:function#ordinal ; expr = the ranged expression ; fingerprints of the range statement and of the function body *)
+Definition map_range_sites : list (string * string * (string * string)) := [
+  ("logic/biases/anchoring/anchoring.go:matchScalingWithBounding#0", "scaling", ("b6708065d59ede9a", "17691802d77a2eaf"));
+  ("logic/biases/anchoring/ideal-reference-alternative-evaluator.go:extractCriteriaValues#0", "*best", ("179ac57db6e7b62e", "b2cba098083e14cc"));
+  ("logic/biases/anchoring/ideal-reference-alternative-evaluator.go:prepareCriteriaWithCoefficients#0", "firstAlternative.Alternative.Criteria", ("e9a2cccc1cdee4ed", "f17a002668306539"));
+  ("logic/biases/anchoring/inline-anchoring-applier.go:*InlineAnchoringApplier.ApplyAnchoring#0", "boundingsWithScales", ("c6e1f8b03cda2ee6", "7adb904c5f47d2ae"));
+  ("logic/biases/anchoring/inline-anchoring-applier.go:arithmeticAverage#0", "a.Coefficients", ("89c824b816baf202", "cfd5cf58dbfbb4d5"));
+  ("logic/biases/anchoring/inline-anchoring-applier.go:arithmeticAverage#1", "newWeights", ("c2107148b96ab0e4", "cfd5cf58dbfbb4d5"));
+  ("logic/biases/criteria-mixing/criteria-mixing.go:*criteriaToMix.mix#0", "c1Values", ("f5cbaab39a1cbdd8", "2782e8946b46aa62"));
+  ("logic/limited-rationality/satisfaction-levels/satisfaction-levels-update.go:*SatisfactionLevelsUpdateListeners.Fetch#0", "sl.Listeners", ("b852301e47161a66", "089e65b6e0629823"));
+  ("logic/preference-func/choquet/choquet-integral.go:prepareCriteriaInAscendingOrder#0", "alternative.Criteria", ("e44f246c2c555065", "177b5e30e003ba48"));
+  ("logic/preference-func/choquet/choquet-integral_parsing.go:remapWeights#0", "*weights", ("68e9a450d773f86e", "50541994eb9d8edc"));
+  ("logic/preference-func/choquet/choquet-integral_parsing.go:prepareWeights#0", "*weights", ("0c748aa2932ae3bc", "25083f5403e063c6"));
+  ("logic/preference-func/electreIII/electre_III-bias-listener.go:*ElectreIIIBiasLIstener.Merge#0", "*oldEleParams.Criteria", ("659c69d4d95f881c", "5899b1b64a9a8dc8"));
+  ("logic/preference-func/electreIII/electre_III-bias-listener.go:*ElectreIIIBiasLIstener.Merge#1", "*newEleParams.Criteria", ("4d27b1288a5b61d9", "5899b1b64a9a8dc8"));
+  ("logic/preference-func/electreIII/electre_III-bias-listener.go:*ElectreIIIBiasLIstener.RankCriteriaAscending#0", "*eleParams.Criteria", ("f441b0f6046bf5e4", "edb1ea993f14fb6d"));
+  ("logic/preference-func/owa/owa-bias-listener.go:*OwaBiasListener.Merge#0", "newParams.Weights", ("5ef1f71755f322a4", "c4a4bcd94bbdbc6b"));
+  ("logic/preference-func/owa/owa.go:sortAlternativeCriteriaWeights#0", "alternative.Criteria", ("0ac3bd7b5761ffc2", "333859f80265bb01"));
+  ("model/alternative.go:*AlternativeWithCriteria.WithCriterion#0", "a.Criteria", ("ce579f0e9fdaf89f", "c04e76bc54b6b529"));
+  ("model/bias-listener.go:PrepareCumulatedWeightsMap#0", "a.Criteria", ("22d59760823742dc", "a8fc292e4811d834"));
+  ("model/bias.go:ChooseBiases#0", "*available", ("72795329569d95ce", "875f3b5e0fce9ac4"));
+  ("model/weights.go:*Weights.Merge#0", "*w", ("6924b76869ec8c18", "7c286e23b32981a2"));
+  ("model/weights.go:*Weights.Merge#1", "*other", ("e8b7ef97078b3ba3", "7c286e23b32981a2"));
+  ("model/weights.go:*Weights.Copy#0", "*w", ("6924b76869ec8c18", "66deff307a372a5f"));
+  ("model/weights.go:*Weights.AsKeyValue#0", "*w", ("512a97b4196e2000", "1f718f8d600a54ca"));
+  ("testUtils/test_utils.go:ValidateWeights#0", "expected", ("f9abb41c1882eee8", "61a03841eaf508ff"))
 ].
 
 Definition clock_or_global_rand_calls : list string := [].
